@@ -68,6 +68,7 @@ pub fn run(seed: u64, count: usize, outdir: &str) -> std::io::Result<i32> {
     let mut hist: BTreeMap<String, usize> = BTreeMap::new();
     let mut distinct = BTreeSet::new();
     let (mut npix, mut nfill, mut nnear) = (0usize, 0usize, 0usize);
+    let mut nmodel = 0usize;
     for ci in 0..count {
         let mut r = rng.fork();
         let g = if ci == 0 { bundled("hi.vm") } else if r.chance(0.6) { gen_csg(&mut r, false, false) } else { gen_expr(&mut r) };
@@ -82,6 +83,19 @@ pub fn run(seed: u64, count: usize, outdir: &str) -> std::io::Result<i32> {
         *hist.entry(match c.threads { 0 => "no-pool", 1 => "global-pool", _ => "custom-pool" }.into()).or_default() += 1;
         if c.w as usize % c.tiles[0] != 0 || c.h as usize % c.tiles[0] != 0 { *hist.entry("size-not-multiple-of-root-tile".into()).or_default() += 1; }
         let mut bad: Vec<String> = vec![];
+        if ci == 0 {
+            // corpus: every tile-size list the constructor accepts must render (a zero size used to be accepted)
+            for t in [vec![0usize], vec![8, 0], vec![1], vec![5]] {
+                if let Ok(ts) = TileSizes::new(&t) {
+                    let shape = Shape::<VmFunction>::new(&g.ctx, g.root).unwrap();
+                    let rc = RenderConfig { image_size: ImageSize::new(9, 7), world_to_model: Matrix3::identity(), pixel_perfect: false, z: 0.0 };
+                    let ec = EvalConfig { tile_sizes: Some(ts), threads: None, cancel: Default::default() };
+                    if catch_unwind(AssertUnwindSafe(|| render(shape.try_into().unwrap(), &rc, &ec).is_some())).is_err() {
+                        bad.push(format!("kind=accepted-tile-list-panics backend=vm TileSizes::new({t:?}) is Ok but rendering with it panics"));
+                    }
+                }
+            }
+        }
         let vm = catch_unwind(AssertUnwindSafe(|| render2::<VmFunction>(&g, &c)));
         let jit = catch_unwind(AssertUnwindSafe(|| render2::<JitFunction>(&g, &c)));
         let m4 = mat4_of(&c);
@@ -117,17 +131,35 @@ pub fn run(seed: u64, count: usize, outdir: &str) -> std::io::Result<i32> {
                 if let Some(p) = problem { nbad += 1; if first.is_none() { first = Some(format!("pixel ({x}, {y}): {p}")); } }
             } }
             if nbad > 0 { bad.push(format!("kind=wrong-pixel backend={name} {nbad} pixels differ from per-pixel evaluation; first {}", first.unwrap())); }
-            write!(il, "{name} {} ; ", img.iter().filter(|p| p.inside()).count()).unwrap();
+            if name == "vm" {
+                // the whole image, for the model
+                il.push_str("img");
+                for px in img.iter() { match px.unpack() {
+                    DistancePixel::Value(v) => { let b = if v.is_nan() { 0x7fc00000 } else if v == 0.0 { 0 } else { v.to_bits() }; write!(il, " {b}").unwrap(); }
+                    DistancePixel::Fill { inside, depth } => write!(il, " F{}.{}", inside as u8, depth).unwrap(),
+                } }
+            }
         }
-        cases.push_str(&line); cases.push('\n');
-        impls.push_str(il.trim_end()); impls.push('\n');
+        if il.is_empty() { il.push_str("no-image"); }
+        // the case for the model (it renders small images only: the extracted interval arithmetic is slow)
+        let small = (c.w as usize) * (c.h as usize) <= 1600 && g.ctx.len() <= 120;
+        if small {
+            let mut wl = format!("c06 {} {}", crate::wire::fmt_arena(&g.ctx, &[]), g.root.verif_index());
+            for i in 0..4 { for j in 0..4 { write!(wl, " {}", canon_bits(m4[(i, j)])).unwrap(); } }
+            write!(wl, " {} {} {}", canon_bits(c.z), c.pp as u8, c.tiles.len()).unwrap();
+            for t in &c.tiles { write!(wl, " {t}").unwrap(); }
+            write!(wl, " {} {}", c.w, c.h).unwrap();
+            cases.push_str(&wl); cases.push('\n');
+            impls.push_str(&il); impls.push('\n');
+            nmodel += 1;
+        }
         for m in &bad { fails += 1; writeln!(oracle, "FAIL case={ci} {m} :: {line}").unwrap(); }
     }
     std::fs::write(format!("{outdir}/cases.txt"), cases)?;
     std::fs::write(format!("{outdir}/impl.txt"), impls)?;
     std::fs::write(format!("{outdir}/oracle.txt"), oracle)?;
     let mut js = String::from("{");
-    write!(js, "\"cases\": {count}, \"distinct_nontrivial\": {}, \"pixels_checked\": {npix}, \"fill_pixels\": {nfill}, \"fill_within_rounding_of_zero\": {nnear}, ", distinct.len()).unwrap();
+    write!(js, "\"cases\": {count}, \"distinct_nontrivial\": {}, \"pixels_checked\": {npix}, \"fill_pixels\": {nfill}, \"fill_within_rounding_of_zero\": {nnear}, \"images_replayed_by_the_model\": {nmodel}, ", distinct.len()).unwrap();
     write!(js, "\"mix\": {{{}}}, ", hist.iter().map(|(k, v)| format!("\"{k}\": {v}")).collect::<Vec<_>>().join(", ")).unwrap();
     write!(js, "\"oracle_fails\": {fails}}}").unwrap();
     std::fs::write(format!("{outdir}/stats.json"), js)?;
